@@ -33,6 +33,10 @@ def row_index(t):
 class GpState:
     def __init__(self, vc, with_points=True):
         self.vc = vc
+        from pyvc import npmodel as _N
+        _N.USED.add("ghost contract: kernel and mean objects are replaced by their contracts at the call sites (pairwise kernel "
+                    "matrix, symmetric training covariance and its parameter derivatives, mean vector and its derivatives, "
+                    "gradient terms); these are proved for the library's kernels / means under C10 and C16")
         c = vc.c
         self.n = vc.int("n", lo=1)
         self.d = vc.int("d", lo=1)
